@@ -63,7 +63,19 @@ def check_props(pid, timeout=900):
     """Re-check Props/<pid>.v with coqc and parse every Print Assumptions block.
 
     Returns dict(theorems=[names], assumptions={name: [axioms]}, ok, log, cmd)."""
-    src = os.path.join(COQ, "theories", "Props", pid + ".v")
+    import glob
+    srcs = sorted(glob.glob(os.path.join(COQ, "theories", "Props", pid + "*.v")))   # Cxx.v, CxxStore.v, ...
+    if len(srcs) > 1:
+        parts = [_check_props_file(s, timeout) for s in srcs]
+        return dict(theorems=[t for p in parts for t in p["theorems"]],
+                    assumptions={k: v for p in parts for k, v in p["assumptions"].items()},
+                    ok=all(p["ok"] for p in parts), forbidden=[f for p in parts for f in p["forbidden"]],
+                    log="\n".join(p["log"][-2000:] for p in parts), cmd=" && ".join(p["cmd"] for p in parts),
+                    rc=max(p["rc"] for p in parts))
+    return _check_props_file(srcs[0] if srcs else os.path.join(COQ, "theories", "Props", pid + ".v"), timeout)
+
+
+def _check_props_file(src, timeout=900):
     text = open(src).read()
     theorems = re.findall(r"^\s*(?:Theorem|Corollary)\s+([A-Za-z0-9_']+)", text, re.M)
     printed = re.findall(r"^\s*Print Assumptions\s+([A-Za-z0-9_']+)\s*\.", text, re.M)
